@@ -1,6 +1,7 @@
 import NodisVerif.Proofs.C12Examples
 import NodisVerif.Proofs.C12More
 import NodisVerif.Props.C11
+import NodisVerif.Proofs.C20ZAddPairs
 /-
   C12 — Eviction of cold values to storage is invisible; a failed flush loses nothing.
 
@@ -305,6 +306,25 @@ theorem zaddNX_covered (s : MState) (now : Int) (key m : Bytes) (sc : F64) (hn :
     Api.zaddNX s now key m sc = (Cmd.raw (zaddNXForm key m sc)).run s now ∧
     (Cmd.raw (zaddNXForm key m sc)).WF ∧ (Cmd.raw (zaddNXForm key m sc)).NilOK :=
   ⟨zaddNX_eq s now key m sc, zaddNXForm_ok key m sc hn hb, zaddNXForm_nilSafe key m sc⟩
+
+/-- the ZADD command's transaction (`zAddPairs`, work package Z): a key transaction like the others, hence covered by
+    `command_spec`, `command_sim` and `any_eviction_schedule_invisible` - every option set, every non-empty list of
+    representable pairs -/
+theorem zaddPairs_covered (s : MState) (now : Int) (key : Bytes) (nx xx gt lt ch : Bool) (pairs : List (Bytes × F64))
+    (hne : pairs ≠ []) (hb : ∀ q ∈ pairs, Proofs.C20.PairOK q) :
+    Api.zaddPairs s now key nx xx gt lt ch pairs = (Cmd.raw (Proofs.C20.zaddPairsF key nx xx gt lt ch pairs)).run s now ∧
+    (Cmd.raw (Proofs.C20.zaddPairsF key nx xx gt lt ch pairs)).WF ∧
+    (Cmd.raw (Proofs.C20.zaddPairsF key nx xx gt lt ch pairs)).NilOK :=
+  ⟨Proofs.C20.zaddPairs_eq s now key nx xx gt lt ch pairs hne, Proofs.C20.zaddPairsF_ok key nx xx gt lt ch pairs hb,
+    Proofs.C20.zaddPairsF_nilSafe key nx xx gt lt ch pairs⟩
+
+/-- hypotheses satisfiable -/
+example : ([(([97] : Bytes), 0x4014000000000000), ([98], 0x3FF0000000000000)] : List (Bytes × F64)) ≠ [] ∧
+    ∀ q ∈ [(([97] : Bytes), 0x4014000000000000), ([98], 0x3FF0000000000000)], Proofs.C20.PairOK q := by
+  refine ⟨by simp, ?_⟩
+  intro q hq
+  simp only [List.mem_cons, List.not_mem_nil, or_false] at hq
+  rcases hq with rfl | rfl <;> exact ⟨by decide +kernel, by decide⟩
 
 /-! ### SCAN -/
 
